@@ -181,8 +181,27 @@ func implDecode(f cc.DecodeCasingFunc, s string) (out string) {
 	if err != nil {
 		return "err"
 	}
-	return "ok " + hexList(ws)
+	out = "ok " + hexList(ws)
+	// result ownership: the returned words are the caller's - overwriting them must not change what the same
+	// identifier decodes to afterwards (a decoder that hands out a cached or shared slice would)
+	for i := range ws {
+		ws[i] = "scribbled"
+	}
+	for i, j := 0, len(ws)-1; i < j; i, j = i+1, j-1 {
+		ws[i], ws[j] = ws[j], ws[i]
+	}
+	again := "err"
+	if ws2, err2 := f(s); err2 == nil {
+		again = "ok " + hexList(ws2)
+	}
+	if again != out && c19Shared != nil {
+		c19Shared(s, out, again)
+	}
+	return out
 }
+
+// c19Shared reports a decoder whose second answer for the same identifier changed after the caller wrote to the first
+var c19Shared func(ident, first, second string)
 
 func implEncode(f cc.EncodeCasingFunc, ws []string) (out string) {
 	defer func() {
@@ -190,7 +209,12 @@ func implEncode(f cc.EncodeCasingFunc, ws []string) (out string) {
 			out = "panic"
 		}
 	}()
-	return "ok " + hexEnc(f(ws))
+	before := hexList(ws)
+	out = "ok " + hexEnc(f(ws))
+	if after := hexList(ws); after != before && c19Shared != nil {
+		c19Shared("(encoder input) "+before, before, after)
+	}
+	return out
 }
 
 func init() { register("C19", checkC19) }
@@ -198,6 +222,11 @@ func init() { register("C19", checkC19) }
 func checkC19(c *Ctx) {
 	r := c.RNG
 	res := c.Res
+	c19Shared = func(ident, first, second string) {
+		res.Add(Finding{Kind: "violation", What: "the decoded words are not the caller's own (or an encoder wrote to its input): after the caller overwrote the first result, the same identifier decodes differently",
+			Case: map[string]any{"identifier": ident}, Expected: first, Observed: second})
+	}
+	defer func() { c19Shared = nil }()
 	res.Rule = "stream A: word lists over [a-z][a-z0-9]* (0-12 words) x six schemes, encode then decode, implementation vs model and vs the round-trip oracle; " +
 		"stream B: Go identifiers from capitalised words and the initialism list (1-6 tokens), DecodeGoCamelCase vs model and vs the token oracle; " +
 		"stream C: arbitrary ASCII strings into all eight decoders, implementation vs model. " +
